@@ -69,7 +69,11 @@ def gen_case(rng, tier, k):
             v = rng.choice(names)
             lines = [l if l.split(",")[0].strip() != v else f"{v}, ({l.split(',', 1)[1].strip()}) {rng.choice(['&', '|'])} {rng.choice(['', '!'])}in{j}" for l in lines]
             lines.append(f"in{j}, in{j}")
-        return {"kind": "inputs", "bnet": "\n".join(lines), "valuation": [rng.randint(0, 1) for _ in range(ninp)]}
+        bnet = "\n".join(lines)
+        if rng.random() < 0.4:
+            bnet = common.g_modulated(rng)
+        return {"kind": "inputs", "bnet": bnet, "valuation": [rng.randint(0, 1) for _ in range(3)],
+                "strategy": rng.choice(["bfs", "build", "block", "scc"])}
     return {"kind": "model", "index": rng.randrange(1000)}
 
 
@@ -174,11 +178,24 @@ def run_inputs(case):
     if A != B:
         fails.append({"kind": "conditioned-diagram-not-isomorphic", "sig": {}, "detail":
                       f"valuation {val}: nodes only below {sorted(A[0] - B[0])[:2]} only fixed {sorted(B[0] - A[0])[:2]}; edges only below {sorted(A[1] - B[1])[:2]} only fixed {sorted(B[1] - A[1])[:2]}"})
-    sa = sorted(ni.st(s) for i in below for s in sd.node_attractor_seeds(i, compute=True))
     sb_sets, sa_sets = [], []
-    for i in below:
-        for vs in sd.node_attractor_sets(i, compute=True):
-            sa_sets.append(vertex_set_states(sd, ni, vs))
+    st = case.get("strategy", "bfs")
+    if st == "bfs":
+        for i in below:
+            for vs in sd.node_attractor_sets(i, compute=True):
+                sa_sets.append(vertex_set_states(sd, ni, vs))
+    else:
+        # the attractors of the free-input network as found by another complete strategy, restricted to
+        # the input valuation
+        sd2 = make_sd(case)
+        complete(sd2, st)
+        for i in sd2.expanded_ids():
+            for vs in sd2.node_attractor_sets(i, compute=True):
+                states = vertex_set_states(sd2, ni, vs)
+                if all(all(s[ni.idx[v]] == str(b) for v, b in val.items()) for s in states):
+                    sa_sets.append(states)
+        if st == "scc":
+            sa_sets = [list(x) for x in sorted(set(tuple(a) for a in sa_sets))]     # known finding F6 duplicates
     nis = common.NetInfo(sub.network)
     for i in sub.node_ids():
         for vs in sub.node_attractor_sets(i, compute=True):
